@@ -6,6 +6,7 @@ package controls
 import (
 	"reflect"
 	"sort"
+	"unicode/utf8"
 )
 
 // OrdMapRangeEscape returns keys in map order (violation: unsorted escape).
@@ -147,4 +148,14 @@ func NpKindGood(v reflect.Value) bool {
 		return v.IsNil()
 	}
 	return false
+}
+
+// UnitMixBad subtracts a byte count from a character count.
+func UnitMixBad(s, t string) int {
+	return utf8.RuneCountInString(s) - len(t)
+}
+
+// UnitMixGood subtracts characters from characters.
+func UnitMixGood(s, t string) int {
+	return utf8.RuneCountInString(s) - utf8.RuneCountInString(t)
 }
